@@ -91,7 +91,27 @@ def extra_forms():
                 "external_choices": [{"list_name": "X", "name": "x1", "label": "X1", "state": "s1", "county": "c1"}, {"list_name": "X", "name": "x2", "state": "s2", "zone": "z"}]}
     ids_dict = {"survey": [{"type": "text", "name": "q", "label": "Q"}], "settings": [{"form_id": "fid", "id_string": "ids", "form_title": "T"}],
                 "survey_header": [{"type": None, "name": None, "label": None}], "settings_header": [{"form_id": None, "id_string": None, "form_title": None}]}
-    return [pull, nsform, ext_dict, ids_dict]
+    # several sheets whose names are close to a missing one: the advice lists them all, in sheet order
+    near = """| survey |
+| | type | name | label |
+| | text | q | Q |
+| setting |
+| | form_title |
+| | T1 |
+| stettings |
+| | form_title |
+| | T2 |
+| settingz |
+| | form_title |
+| | T3 |
+| choicez |
+| | list_name | name | label |
+| | l | a | A |
+| choises |
+| | list_name | name | label |
+| | l | b | B |
+"""
+    return [pull, nsform, ext_dict, ids_dict, near]
 
 
 def digest(xform, warnings, itemsets):
